@@ -850,7 +850,7 @@ pub fn run() {
     // ---- exhaustive shapes ----
     let shapes: Vec<(usize, usize)> = {
         let mut v = vec![];
-        let (maxd, maxbits) = t.pick((4usize, 12usize), (5usize, 20usize));
+        let (maxd, maxbits) = t.pick((5usize, 16usize), (5usize, 20usize));
         for r in 1..=maxd {
             for cc in 1..=maxd {
                 if r * cc <= maxbits {
@@ -922,7 +922,7 @@ pub fn run() {
     });
 
     // ---- random matrices ----
-    let n_rand = t.pick(20_000usize, 1_500_000usize);
+    let n_rand = t.pick(60_000usize, 5_000_000usize);
     par_cases("random", n_rand, move |r, i| {
         let mut st = Stats::default();
         let (m, class) = gen_matrix(r, 24);
@@ -940,8 +940,8 @@ pub fn run() {
     });
 
     // ---- algebra: exhaustive small pairs ----
-    let amax = t.pick(2usize, 3usize);
-    let abits = t.pick(8usize, 16usize);
+    let amax = 3usize;
+    let abits = t.pick(12usize, 18usize);
     let mut triples = vec![];
     for r_ in 1..=amax {
         for k in 1..=amax {
@@ -989,7 +989,7 @@ pub fn run() {
     );
 
     // ---- algebra: random tuples ----
-    let n_alg = t.pick(4_000usize, 300_000usize);
+    let n_alg = t.pick(12_000usize, 300_000usize);
     par_cases("algebra-random", n_alg, move |r, i| {
         let mut st = Stats::default();
         let small = r.chance(0.4);
